@@ -4,6 +4,7 @@ import (
 	"fmt"
 	"go/token"
 	"go/types"
+	"os"
 	"sort"
 	"strings"
 	"sync"
@@ -27,6 +28,9 @@ type Config struct {
 	KeepSamples     int
 	Deadline        time.Time
 	Params          map[string]int
+	// RecursionLimits: function name -> max simultaneous activations; exceeding it is
+	// reported as a termination violation (unwinding assertion turned into a finding).
+	RecursionLimits map[string]int
 }
 
 func (c *Config) defaults() {
@@ -259,6 +263,18 @@ func Explore(prog *ssa.Program, sh *Shared, fn *ssa.Function, cfg Config) *Repor
 				}
 				var err error
 				solver, err = smt.Start(cfg.Solver, cfg.SolverTimeoutMs)
+				if err == nil {
+					for _, fb := range []string{"cvc5", "z3-new", "z3"} {
+						if fb != cfg.Solver {
+							solver.Fallback = append(solver.Fallback, fb)
+						}
+					}
+				}
+				if lf := os.Getenv("VERIF_SMT_LOG"); lf != "" && err == nil && id == 0 {
+					if f, e := os.Create(lf); e == nil {
+						solver.Log = f
+					}
+				}
 				pathsOnSolver = 0
 				if err != nil {
 					mu.Lock()
@@ -435,6 +451,23 @@ func runPath(prog *ssa.Program, sh *Shared, fn *ssa.Function, prefix []int32, so
 					if p.checkPC() == smt.Sat {
 						v := p.violation(nil, "panic", "panic.explicit@"+funcShort(e.fn), msg)
 						v.Pos = shortPos(e.pos)
+						v.Func = e.fn
+						v.Trace = p.model()
+						res.Violations = append(res.Violations, v)
+					}
+				}()
+			case nonTermination:
+				res.End = "violation"
+				res.Msg = fmt.Sprintf("recursion bound exceeded: %d activations of %s", e.depth, e.fn)
+				func() {
+					defer func() {
+						if rr := recover(); rr != nil {
+							res.End = "engine-error"
+							res.Msg = fmt.Sprint(rr)
+						}
+					}()
+					if p.checkPC() == smt.Sat {
+						v := p.violation(nil, "nonterm", "termination@"+funcShort(e.fn), res.Msg)
 						v.Func = e.fn
 						v.Trace = p.model()
 						res.Violations = append(res.Violations, v)
